@@ -282,7 +282,7 @@ def parse(res, stdout, stderr, anchors):
                     t = s["text"][0]
                     txt = t["text"][t["highlight_start"] - 1:t["highlight_end"] - 1].strip()
                     break
-            name = "%s/safety@\"%s\"" % (fkey, txt[:60])
+            name = fkey if fkey.startswith("lemma:") else "%s/safety@\"%s\"" % (fkey, txt[:60])
             tags = []
         if not tags:
             tags = list(fn["tags"]) if (fn and fn.get("tags")) else ["C01"]
